@@ -663,14 +663,17 @@ PROPS["C10"] = dict(
     _ca,
     runs={
         "quick": [dict(_ca, harness="VerifHarness_C10_quick", reach=["crashed-file", "crashed-all", "crashed-none", "no-crash"], validate=16),
-                  dict(_ca, harness="VerifHarness_C10_ckpt", reach=["crashed-file", "crashed-all", "crashed-none", "no-crash", "checkpoint"], validate=16)],
+                  dict(_ca, harness="VerifHarness_C10_ckpt", reach=["crashed-file", "crashed-all", "crashed-none", "no-crash", "checkpoint"], validate=16),
+                  dict(_ca, harness="VerifHarness_C10_dir", reach=["crashed-file", "crashed-none", "no-crash", "directive"], validate=16)],
         "thorough": [dict(_ca, harness="VerifHarness_C10_thorough", reach=["crashed-file", "crashed-all", "crashed-none", "no-crash"], validate=24),
-                     dict(_ca, harness="VerifHarness_C10_ckpt3", reach=["crashed-file", "crashed-all", "crashed-none", "no-crash", "checkpoint"], validate=24)],
+                     dict(_ca, harness="VerifHarness_C10_ckpt3", reach=["crashed-file", "crashed-all", "crashed-none", "no-crash", "checkpoint"], validate=24),
+                     dict(_ca, harness="VerifHarness_C10_dir3", reach=["crashed-file", "crashed-none", "no-crash", "directive"], validate=24)],
     },
     bounds={
         "quick": "directories of 1..2 files x 1..2 statements, --tx-mode {file, all, none}; the index of the store event at which the process dies "
                  "(transaction begin, statement execution, revision write, commit) is a symbolic integer over the whole run; then the same command is run again; "
-                 "second family: the same with any one file (or none) tagged atlas:checkpoint",
+                 "second family: the same with any one file (or none) tagged atlas:checkpoint; third family: global mode file or none with a per-file "
+                 "atlas:txmode directive (none / file / absent) on every file",
         "thorough": "same with up to 3 files",
     },
     assumptions=[
@@ -680,11 +683,12 @@ PROPS["C10"] = dict(
         "native validation and replay: the real command on a real SQLite file opened through an event-counting database/sql driver that kills the "
         "'process' at the same event index (harness/cmdapi/zz_verif_crash.go)",
     ],
-    outside="per-file txmode directives under a crash, SQLite-specific commit behaviour (foreign-key toggling, deferred violations), torn writes below "
+    outside="SQLite-specific commit behaviour (foreign-key toggling, deferred violations), torn writes below "
             "the SQL level, other dialects' implicit commits, crashes inside the revision-table migration",
     claim="For every shape, transaction mode and crash event within the bounds: the surviving revision table never records a statement whose effect is "
           "not in the journal, in file and all modes no file is half applied, and re-running the same command completes with every statement present "
-          "exactly once (file, all) or at least once with at most the single in-flight statement twice (none).",
+          "exactly once (file, all) or at least once with at most the single in-flight statement twice (none); with per-file directives the "
+          "guarantee of each file is the one of its effective mode.",
     note="Model-store based and bounded; fidelity guarded by executing sampled paths and all counterexamples on the real CLI + SQLite with the crash driver.",
 )
 
